@@ -5,7 +5,10 @@ LEVEL = "proof"
 def run(chk, replay=None):
     chk.cov["trusted_base"] = [
         "Coq 8.16.1 kernel; no axioms (Print Assumptions closed) for every theorem in Properties_C16_*.v",
-        "extraction ExtrOcamlBasic only; ocaml/lockstep.ml, handlers/h_eventv1.ml glue",
+        "extraction ExtrOcamlBasic only; ocaml/lockstep.ml, handlers/h_eventv1.ml, h_autoreset.ml glue",
+        "k1_auto_reset.cpp: mailbox scheduler of the driver (one per consumer thread); stop callback of next() not exercised "
+        "(cancellation = set_done in the model)",
+        "event_v2/*: MONITOR ONLY, no Coq model: k1_event_v2.cpp with a driver-side stop token (inplace_stop_token semantics)",
         "harness: verif_shim.hpp + dsched (serialises real threads: sequential consistency assumed; "
         "compare_exchange_weak never fails spuriously), k1_event_v1.cpp (hop_scheduler wrapper logs the hand-off)",
         "modelled not verified: the scheduler the completion is handed to (inline_scheduler / single_thread_context, C06); "
@@ -15,4 +18,8 @@ def run(chk, replay=None):
     chk.prove()
     k1.run_unit(chk, event.EventV1())
     k1.run_unit(chk, event.AutoReset())
-    k1.run_unit(chk, event.AutoResetMulti(), key_prefix="auto_reset/multi-consumer-spurious-done")
+    # event.AutoResetMulti (two concurrent next() on one stream) is NOT run: a stream has one consumer that
+    # asks for the next element after the previous next() completed (doc/concepts.md), so the "spurious done"
+    # of a second concurrent next() (theorem C16_autoreset_spurious_done_refuted) is outside the property.
+    k1.run_unit(chk, event.EventV2Logic())
+    k1.run_unit(chk, event.EventV2Lifetime(), key_prefix="event_v2/op-touched-after-completion")
